@@ -79,3 +79,602 @@ Proof.
   match goal with |- match ?r with _ => _ end = _ -> _ => destruct r as [y|] end; [|discriminate].
   intros E. inversion E; subst. now apply QA_clamp_between.
 Qed.
+
+(* ======================================================================================= *)
+(* count_at strictly inside the range: the two branches in closed form                     *)
+
+Definition aval (a : @answer Q) : option Q :=
+  match a with AInt z => Some (inject_Z z) | ANum x => Some x | _ => None end.
+
+Definition sumq (l : list bin) : Q := inject_Z (sum_counts l).
+
+Lemma sum_counts_mass l : sum_counts l = mass l.
+Proof. induction l as [|[v f] t IH]; [reflexivity|]. cbn [sum_counts]. rewrite IH. reflexivity. Qed.
+
+Lemma sumq_app l1 l2 : sumq (l1 ++ l2) == sumq l1 + sumq l2.
+Proof. unfold sumq. rewrite !sum_counts_mass, mass_app, inject_Z_plus. reflexivity. Qed.
+
+Lemma sumq_cons v f l : sumq ((v, f) :: l) == inject_Z f + sumq l.
+Proof. unfold sumq. cbn [sum_counts]. rewrite inject_Z_plus. reflexivity. Qed.
+
+Lemma sumq_nonneg l : pos_counts l -> 0 <= sumq l.
+Proof.
+  induction l as [|[v f] t IH]; intros H; [unfold sumq; cbn [sum_counts]; change (inject_Z 0) with 0; lra|].
+  inversion H as [|? ? Hf Ht]; subst. cbn [snd] in Hf. rewrite sumq_cons. specialize (IH Ht).
+  assert (0 < inject_Z f) by now apply pos_inject. lra.
+Qed.
+
+(* position of a query among sorted centres: everything before is below it, the rest is not *)
+Lemma count_gt_split (l : list bin) v :
+  sorted l -> exists l1 l2, l = l1 ++ l2 /\ count_gt QA v l = length l1 /\
+                            (forall a, In a l1 -> fst a < v) /\ (forall b, In b l2 -> v <= fst b).
+Proof.
+  induction l as [|[x f] t IH]; intros Hs.
+  - exists [], []. repeat split; auto; intros ? [].
+  - apply ssorted_cons in Hs as [Ht Hx]. cbn [count_gt ltb QA].
+    destruct (Qltb_spec x v) as [Hlt|Hge].
+    + destruct (IH Ht) as (l1 & l2 & -> & Hc & Ha & Hb). exists ((x, f) :: l1), l2.
+      split; [reflexivity|]. split; [cbn [length]; rewrite Hc; reflexivity|].
+      split; [intros a [<-|Ia]; auto|exact Hb].
+    + exists [], ((x, f) :: t). split; [reflexivity|].
+      assert (Hall : forall b, In b ((x, f) :: t) -> v <= fst b).
+      { intros b [<-|Ib]; cbn [fst]; [lra|]. specialize (Hx b Ib). unfold blt in Hx. cbn [fst] in Hx. lra. }
+      split.
+      * cbn [length]. clear - Hall Ht. cut (count_gt QA v t = 0%nat); [intros ->; reflexivity|].
+        assert (Hall' : forall b, In b t -> v <= fst b) by (intros b Ib; apply Hall; now right).
+        clear Hall. induction t as [|[y g] t' IH']; [reflexivity|]. cbn [count_gt ltb QA].
+        destruct (Qltb_spec y v) as [H|H].
+        -- specialize (Hall' (y, g) (or_introl eq_refl)). cbn [fst] in Hall'. lra.
+        -- apply ssorted_cons in Ht as [Ht' _]. rewrite IH'; auto. intros b Ib. apply Hall'. now right.
+      * split; [intros ? []|exact Hall].
+Qed.
+
+Section Inside.
+Variable s : st.
+Variables mn mx : Q.
+Hypothesis HI : Inv s.
+Hypothesis Hmn : hmin s = Some mn.
+Hypothesis Hmx : hmax s = Some mx.
+
+
+Lemma within_bins : bins s <> [] -> within mn mx (bins s).
+Proof.
+  intros Hne. pose proof HI as (_ & _ & _ & _ & _ & Hb).
+  destruct (bounds_nonempty s Hne Hb) as (a & b & E1 & E2 & Hw). congruence.
+Qed.
+
+(* the interior / right formulas *)
+Definition right_val (l0 : list bin) (vl : Q) (fl : Z) (v : Q) : Q :=
+  (1 + (v - vl) / (mx - vl)) * inject_Z fl / 2 + sumq l0.
+Definition inner_val (l1' : list bin) (vi : Q) (fi : Z) (vj : Q) (fj : Z) (v : Q) : Q :=
+  (inject_Z fi + (inject_Z fi + inject_Z (fj - fi) / (vj - vi) * (v - vi))) / 2 * (v - vi) / (vj - vi)
+  + sumq l1' + inject_Z fi / 2.
+
+Lemma last_split (l : list bin) bl :
+  nth_error l (length l - 1) = Some bl -> exists l0, l = l0 ++ [bl].
+Proof.
+  intros Hn. destruct (split_at _ _ _ Hn) as (l1 & l2 & E & Hl). subst l.
+  rewrite app_length in Hl. cbn [length] in Hl. assert (l2 = []) by (destruct l2; [reflexivity|cbn in Hl; lia]).
+  subst. now exists l1.
+Qed.
+
+Lemma firstn_app_exact {X} (l1 l2 : list X) : firstn (length l1) (l1 ++ l2) = l1.
+Proof. induction l1; cbn; [now destruct l2|now f_equal]. Qed.
+
+(* right branch *)
+Lemma count_at_right (l0 : list bin) vl fl v :
+  bins s = l0 ++ [(vl, fl)] -> mn < v -> v < mx -> vl <= v ->
+  (forall v0 f0 t, bins s = (v0, f0) :: t -> v0 < v) ->
+  count_at QA s v = ANum (right_val l0 vl fl v).
+Proof.
+  intros Eb H1 H2 H3 Hfirst. pose proof HI as (Hsorted & Hpos & _).
+  assert (Hn : nth_error (bins s) (length (bins s) - 1) = Some (vl, fl)).
+  { rewrite Eb, app_length. cbn [length]. replace (length l0 + 1 - 1)%nat with (length l0) by lia. apply nth_error_mid. }
+  assert (Hf : firstn (length (bins s) - 1) (bins s) = l0).
+  { rewrite Eb, app_length. cbn [length]. replace (length l0 + 1 - 1)%nat with (length l0) by lia. apply firstn_app_exact. }
+  destruct (bins s) as [|[v0 f0] t] eqn:E0; [destruct l0; discriminate|].
+  specialize (Hfirst v0 f0 t eq_refl).
+  unfold count_at. rewrite E0. rewrite Hn, Hf, Hmn, Hmx.
+  cbn [ltb eqb leb QA].
+  destruct (Qltb_spec v mn); [lra|]. destruct (Qltb_spec mx v); [lra|]. cbn [orb].
+  destruct (Qeqb_spec v mn); [lra|]. destruct (Qeqb_spec v mx); [lra|].
+  destruct (Qleb_spec v v0); [lra|]. destruct (Qleb_spec vl v); [|lra].
+  unfold right_val, two, sumq. cbn [add sub mul div ofZ QA]. reflexivity.
+Qed.
+
+(* interior branch *)
+Lemma count_at_inner (l1' l2' : list bin) vi fi vj fj v :
+  bins s = l1' ++ (vi, fi) :: (vj, fj) :: l2' -> mn < v -> v < mx ->
+  vi < v -> v <= vj -> (l2' <> [] \/ v < vj) ->
+  (* not the left branch: either there are bins before vi, or v0 = vi < v *)
+  count_at QA s v = ANum (inner_val l1' vi fi vj fj v).
+Proof.
+  intros Eb H1 H2 H3 H4 Hlast. pose proof HI as (Hsorted & Hpos & _).
+  (* the first and the last centre *)
+  assert (Hfirst : exists v0 f0 t, bins s = (v0, f0) :: t /\ v0 <= vi).
+  { destruct l1' as [|[a fa] r].
+    - exists vi, fi, ((vj, fj) :: l2'). split; [exact Eb|lra].
+    - exists a, fa, (r ++ (vi, fi) :: (vj, fj) :: l2'). split; [exact Eb|].
+      rewrite Eb in Hsorted. apply ssorted_app in Hsorted as (_ & _ & C).
+      specialize (C (a, fa) (vi, fi) (or_introl eq_refl) (or_introl eq_refl)). unfold blt in C; cbn [fst] in C. lra. }
+  destruct Hfirst as (v0 & f0 & t & E0 & Hv0).
+  assert (Hlastb : exists vl fl, nth_error (bins s) (length (bins s) - 1) = Some (vl, fl) /\ (v < vl)).
+  { destruct (nth_error_lt_Some (bins s) (length (bins s) - 1)) as [[vl fl] Hn].
+    { rewrite E0. cbn [length]. lia. }
+    exists vl, fl. split; [exact Hn|].
+    destruct (last_split _ _ Hn) as (l0 & El).
+    (* the last bin is (vj,fj) when l2' = [], otherwise it lies beyond vj *)
+    rewrite Eb in El.
+    destruct l2' as [|b2 r2] using rev_ind.
+    - assert (E' : (l1' ++ [(vi, fi)]) ++ [(vj, fj)] = l0 ++ [(vl, fl)]) by (rewrite <- app_assoc; exact El).
+      apply app_inj_tail in E' as [_ E']. inversion E'; subst. destruct Hlast as [Hl|Hl]; [congruence|exact Hl].
+    - clear IHr2.
+      assert (E' : (l1' ++ (vi, fi) :: (vj, fj) :: r2) ++ [b2] = l0 ++ [(vl, fl)]).
+      { rewrite <- app_assoc. exact El. }
+      apply app_inj_tail in E' as [_ E']. subst b2.
+      rewrite Eb in Hsorted. apply ssorted_app in Hsorted as (_ & S2 & _).
+      apply ssorted_cons in S2 as [S2 _]. apply ssorted_cons in S2 as [_ C].
+      specialize (C (vl, fl) ltac:(apply in_or_app; right; now left)). unfold blt in C; cbn [fst] in C. lra. }
+  destruct Hlastb as (vl & fl & Hn & Hvl).
+  (* the index the code computes *)
+  assert (Hcg : count_gt QA v (bins s) = S (length l1')).
+  { destruct (count_gt_split (bins s) v Hsorted) as (a1 & a2 & Ea & Hc & Ha1 & Ha2).
+    rewrite Hc. rewrite Eb in Ea.
+    (* a1 must be l1' ++ [(vi,fi)] *)
+    assert (Ea' : (l1' ++ [(vi, fi)]) ++ (vj, fj) :: l2' = a1 ++ a2) by (rewrite <- app_assoc; exact Ea).
+    assert (Hlen : length a1 = length (l1' ++ [(vi, fi)])).
+    { destruct (Nat.lt_trichotomy (length a1) (length (l1' ++ [(vi, fi)]))) as [Hl|[Hl|Hl]]; [|exact Hl|].
+      - (* a1 shorter: (vi,fi) or an earlier one would be in a2, i.e. >= v *)
+        exfalso.
+        assert (Hin : nth_error (a1 ++ a2) (length l1') = Some (vi, fi)).
+        { rewrite <- Ea'. rewrite <- app_assoc. cbn [app]. apply nth_error_mid. }
+        rewrite app_length in Hl. cbn [length] in Hl.
+        assert (Hx : exists b, In b a2 /\ fst b <= vi).
+        { destruct (Nat.lt_ge_cases (length l1') (length a1)) as [Hlt|Hge].
+          - lia.
+          - rewrite nth_error_app2 in Hin by lia. exists (vi, fi). split; [eapply nth_error_In; eauto|cbn; lra]. }
+        destruct Hx as (b & Ib & Hb). specialize (Ha2 b Ib). lra.
+      - (* a1 longer: (vj,fj) would be in a1, i.e. < v *)
+        exfalso.
+        assert (Hin : nth_error (a1 ++ a2) (length (l1' ++ [(vi, fi)])) = Some (vj, fj)).
+        { rewrite <- Ea'. apply nth_error_mid. }
+        rewrite nth_error_app1 in Hin by lia.
+        specialize (Ha1 (vj, fj) (nth_error_In _ _ Hin)). cbn [fst] in Ha1. lra. }
+    rewrite Hlen, app_length. cbn [length]. lia. }
+  unfold count_at. rewrite E0. rewrite <- E0. rewrite Hmn, Hmx, Hn, Hcg.
+  replace (S (length l1') - 1)%nat with (length l1') by lia.
+  assert (N1 : nth_error (bins s) (length l1') = Some (vi, fi)) by (rewrite Eb; apply nth_error_mid).
+  assert (N2 : nth_error (bins s) (S (length l1')) = Some (vj, fj)) by (rewrite Eb; apply nth_error_mid_S).
+  assert (Fn : firstn (length l1') (bins s) = l1') by (rewrite Eb; apply firstn_app_exact).
+  rewrite N1, N2, Fn.
+  cbn [ltb eqb leb QA].
+  destruct (Qltb_spec v mn); [lra|]. destruct (Qltb_spec mx v); [lra|]. cbn [orb].
+  destruct (Qeqb_spec v mn); [lra|]. destruct (Qeqb_spec v mx); [lra|].
+  destruct (Qleb_spec v v0); [lra|]. destruct (Qleb_spec vl v); [lra|].
+  unfold inner_val, two, sumq. cbn [add sub mul div ofZ QA]. reflexivity.
+Qed.
+End Inside.
+
+(* ======================================================================================= *)
+(* bounds and monotonicity of count_at on (first centre, max)                              *)
+
+(* the trapezoid term of the interior branch *)
+Definition trap (vi fi vj fj t : Q) : Q :=
+  (fi + (fi + (fj - fi) / (vj - vi) * (t - vi))) / 2 * (t - vi) / (vj - vi).
+
+Lemma trap_closed vi fi vj fj t : vi < vj ->
+  trap vi fi vj fj t == (2 * fi * (t - vi) * (vj - vi) + (fj - fi) * (t - vi) * (t - vi)) / (2 * (vj - vi) * (vj - vi)).
+Proof. intros H. unfold trap. field. lra. Qed.
+
+Lemma trap_mono vi fi vj fj x y :
+  vi < vj -> 0 < fi -> 0 < fj -> vi <= x -> x <= y -> y <= vj -> trap vi fi vj fj x <= trap vi fi vj fj y.
+Proof.
+  intros Hv Hfi Hfj Hx Hxy Hy. rewrite !trap_closed by exact Hv.
+  set (d := vj - vi). assert (Hd : 0 < d) by (unfold d; lra).
+  set (a := x - vi). set (b := y - vi).
+  assert (0 <= a) by (unfold a; lra). assert (a <= b) by (unfold a, b; lra). assert (b <= d) by (unfold b, d; lra).
+  apply Qle_shift_div_l; [nra|].
+  assert (E2 : (2 * fi * a * d + (fj - fi) * a * a) / (2 * d * d) * (2 * d * d) == 2 * fi * a * d + (fj - fi) * a * a) by (field; lra).
+  rewrite E2.
+  assert (0 <= (b - a) * (2 * fi * d + (fj - fi) * (b + a))).
+  { apply Qmult_le_0_compat; [lra|].
+    destruct (Qlt_le_dec fj fi).
+    - assert ((fi - fj) * (b + a) <= (fi - fj) * (2 * d)) by (apply Qmult_le_l; lra). nra.
+    - assert (0 <= (fj - fi) * (b + a)) by (apply Qmult_le_0_compat; lra). nra. }
+  nra.
+Qed.
+
+Lemma trap_at_vi vi fi vj fj : vi < vj -> trap vi fi vj fj vi == 0.
+Proof. intros H. rewrite trap_closed by exact H. field. lra. Qed.
+
+Lemma trap_at_vj vi fi vj fj : vi < vj -> trap vi fi vj fj vj == (fi + fj) / 2.
+Proof. intros H. rewrite trap_closed by exact H. field. lra. Qed.
+
+Lemma trap_bounds vi fi vj fj t :
+  vi < vj -> 0 < fi -> 0 < fj -> vi <= t -> t <= vj -> 0 <= trap vi fi vj fj t <= (fi + fj) / 2.
+Proof.
+  intros Hv Hfi Hfj H1 H2. split.
+  - rewrite <- (trap_at_vi vi fi vj fj Hv). apply trap_mono; lra.
+  - rewrite <- (trap_at_vj vi fi vj fj Hv). apply trap_mono; lra.
+Qed.
+
+Lemma Qdiv2 x : x / 2 == x * (1 # 2).
+Proof. field. Qed.
+Ltac qlra := rewrite ?Qdiv2; lra.
+
+(* ---------------- boundary values and location of a query ---------------- *)
+Lemma firstn_S_snoc {X} (l : list X) i b : nth_error l i = Some b -> firstn (S i) l = firstn i l ++ [b].
+Proof.
+  revert i; induction l as [|x l IH]; intros [|i] H; cbn in *; try discriminate.
+  - now inversion H.
+  - f_equal. now apply IH.
+Qed.
+
+Lemma app_eq_len {X} (a1 a2 b1 b2 : list X) :
+  a1 ++ a2 = b1 ++ b2 -> length a1 = length b1 -> a1 = b1 /\ a2 = b2.
+Proof.
+  revert b1; induction a1 as [|x a1 IH]; intros [|y b1] E L; cbn in *; try discriminate; [auto|].
+  inversion E; subst. destruct (IH b1 H1 ltac:(lia)) as [-> ->]. auto.
+Qed.
+
+Lemma sorted_nth_lt (l : list bin) p q bp bq :
+  sorted l -> (p < q)%nat -> nth_error l p = Some bp -> nth_error l q = Some bq -> fst bp < fst bq.
+Proof.
+  intros Hs Hpq Hp Hq. destruct (split_at _ _ _ Hp) as (l1 & l2 & -> & Hl).
+  apply ssorted_app in Hs as (_ & S2 & _). apply ssorted_cons in S2 as [_ C].
+  rewrite nth_error_app2 in Hq by lia. replace (q - length l1)%nat with (S (q - length l1 - 1)) in Hq by lia.
+  cbn [nth_error] in Hq. exact (C bq (nth_error_In _ _ Hq)).
+Qed.
+
+Section Mono.
+Variable s : @C13.st Q.
+Variables mn mx : Q.
+Hypothesis HI : Inv s.
+Hypothesis Hmn : hmin s = Some mn.
+Hypothesis Hmx : hmax s = Some mx.
+
+Definition total : Q := sumq (bins s).
+
+Definition Bq (i : nat) : Q :=
+  match nth_error (bins s) i with
+  | Some (_, f) => sumq (firstn i (bins s)) + inject_Z f / 2
+  | None => total
+  end.
+
+Lemma Bq_step i : (i < length (bins s))%nat -> Bq i <= Bq (S i).
+Proof.
+  intros Hi. pose proof HI as (_ & Hpos & _). unfold Bq.
+  destruct (nth_error_lt_Some (bins s) i Hi) as [[vi fi] Ni]. rewrite Ni.
+  assert (Pfi : 0 < inject_Z fi).
+  { apply pos_inject. unfold pos_counts in Hpos. rewrite Forall_forall in Hpos. exact (Hpos _ (nth_error_In _ _ Ni)). }
+  destruct (nth_error (bins s) (S i)) as [[vj fj]|] eqn:Nj.
+  - assert (Pfj : 0 < inject_Z fj).
+    { apply pos_inject. unfold pos_counts in Hpos. rewrite Forall_forall in Hpos. exact (Hpos _ (nth_error_In _ _ Nj)). }
+    rewrite (firstn_S_snoc _ _ _ Ni), sumq_app, sumq_cons. unfold sumq at 3. cbn [sum_counts]. change (inject_Z 0%Z) with 0. qlra.
+  - (* i is the last index *)
+    apply nth_error_None in Nj. unfold total.
+    assert (E : bins s = firstn i (bins s) ++ [(vi, fi)]).
+    { rewrite <- (firstn_S_snoc _ _ _ Ni). symmetry. apply firstn_all2. lia. }
+    rewrite E at 2. rewrite sumq_app, sumq_cons. unfold sumq at 3. cbn [sum_counts]. change (inject_Z 0%Z) with 0. qlra.
+Qed.
+
+Lemma Bq_mono i k : (i <= k)%nat -> (k <= length (bins s))%nat -> Bq i <= Bq k.
+Proof.
+  intros Hik Hk. induction Hik as [|k Hik IH]; [lra|].
+  specialize (IH ltac:(lia)). pose proof (Bq_step k ltac:(lia)). lra.
+Qed.
+
+Lemma Bq_nonneg i : 0 <= Bq i.
+Proof.
+  pose proof HI as (_ & Hpos & _). unfold Bq. destruct (nth_error (bins s) i) as [[v f]|] eqn:N.
+  - assert (0 < inject_Z f).
+    { apply pos_inject. unfold pos_counts in Hpos. rewrite Forall_forall in Hpos. exact (Hpos _ (nth_error_In _ _ N)). }
+    assert (0 <= sumq (firstn i (bins s))).
+    { apply sumq_nonneg. unfold pos_counts in *. rewrite Forall_forall in *. intros b Hb. apply Hpos.
+      rewrite <- (firstn_skipn i (bins s)). apply in_or_app. now left. }
+    qlra.
+  - unfold total. now apply sumq_nonneg.
+Qed.
+
+Lemma Bq_le_total i : Bq i <= total.
+Proof.
+  destruct (Nat.le_gt_cases i (length (bins s))) as [H|H].
+  - assert (E : Bq (length (bins s)) = total).
+    { unfold Bq. destruct (nth_error (bins s) (length (bins s))) eqn:N; [|reflexivity].
+      apply nth_error_Some_lt in N. lia. }
+    rewrite <- E. now apply Bq_mono.
+  - unfold Bq. destruct (nth_error (bins s) i) eqn:N; [|lra]. apply nth_error_Some_lt in N. lia.
+Qed.
+
+(* where a query strictly between the first centre and the maximum falls, and its answer *)
+Inductive loc (v : Q) : nat -> Q -> Prop :=
+| loc_inner l1' l2' vi fi vj fj :
+    bins s = l1' ++ (vi, fi) :: (vj, fj) :: l2' -> vi < v -> v <= vj -> (l2' <> [] \/ v < vj) ->
+    loc v (length l1') (inner_val l1' vi fi vj fj v)
+| loc_right l0 vl fl :
+    bins s = l0 ++ [(vl, fl)] -> vl <= v -> v < mx ->
+    loc v (length l0) (right_val mx l0 vl fl v).
+
+Lemma loc_exists v v0 f0 t :
+  bins s = (v0, f0) :: t -> v0 < v -> v < mx -> exists i a, loc v i a.
+Proof.
+  intros E0 Hv0 Hvx. pose proof HI as (Hsorted & _).
+  destruct (count_gt_split (bins s) v Hsorted) as (a1 & a2 & Ea & _ & Ha1 & Ha2).
+  assert (N1 : a1 <> []).
+  { intros ->. cbn [app] in Ea. rewrite E0 in Ea. subst a2. specialize (Ha2 (v0, f0) (or_introl eq_refl)). cbn [fst] in Ha2. lra. }
+  destruct (exists_last N1) as (l1' & [vi fi] & E1). subst a1.
+  assert (Hvi : vi < v) by (apply (Ha1 (vi, fi)); apply in_or_app; right; now left).
+  destruct a2 as [|[vj fj] l2'].
+  - rewrite app_nil_r in Ea. exists (length l1'), (right_val mx l1' vi fi v). apply loc_right; auto. lra.
+  - assert (Hvj : v <= vj) by (apply (Ha2 (vj, fj)); now left).
+    rewrite <- app_assoc in Ea. cbn [app] in Ea.
+    destruct l2' as [|b2 r2].
+    + destruct (Qlt_le_dec v vj) as [Hlt|Hge].
+      * exists (length l1'), (inner_val l1' vi fi vj fj v). eapply loc_inner; eauto.
+      * (* v = last centre: the right branch *)
+        exists (length (l1' ++ [(vi, fi)])), (right_val mx (l1' ++ [(vi, fi)]) vj fj v).
+        apply loc_right; auto. rewrite <- app_assoc. exact Ea.
+    + exists (length l1'), (inner_val l1' vi fi vj fj v). eapply loc_inner; eauto. left; discriminate.
+Qed.
+
+Lemma loc_count_at v i a :
+  loc v i a -> mn < v -> (forall v0 f0 t, bins s = (v0, f0) :: t -> v0 < v) -> v < mx ->
+  count_at QA s v = ANum a.
+Proof.
+  intros L H1 Hf H2. destruct L as [l1' l2' vi fi vj fj Eb Hvi Hvj Hl|l0 vl fl Eb Hvl Hvx].
+  - now apply (count_at_inner s mn mx HI Hmn Hmx l1' l2').
+  - now apply (count_at_right s mn mx HI Hmn Hmx).
+Qed.
+
+Lemma inner_val_trap l1' vi fi vj fj v :
+  inner_val l1' vi fi vj fj v == trap vi (inject_Z fi) vj (inject_Z fj) v + sumq l1' + inject_Z fi / 2.
+Proof.
+  unfold inner_val, trap. unfold Zminus. rewrite inject_Z_plus, inject_Z_opp. reflexivity.
+Qed.
+
+Lemma pos_of (b : bin) : In b (bins s) -> 0 < inject_Z (snd b).
+Proof.
+  intros Hb. pose proof HI as (_ & Hpos & _). apply pos_inject.
+  unfold pos_counts in Hpos. rewrite Forall_forall in Hpos. now apply Hpos.
+Qed.
+
+Lemma loc_bounds v i a : loc v i a -> Bq i <= a /\ a <= Bq (S i) /\ (i < length (bins s))%nat.
+Proof.
+  intros L. pose proof HI as (Hsorted & _).
+  destruct L as [l1' l2' vi fi vj fj Eb Hvi Hvj Hl|l0 vl fl Eb Hvl Hvx].
+  - assert (N1 : nth_error (bins s) (length l1') = Some (vi, fi)) by (rewrite Eb; apply nth_error_mid).
+    assert (N2 : nth_error (bins s) (S (length l1')) = Some (vj, fj)) by (rewrite Eb; apply nth_error_mid_S).
+    assert (F1 : firstn (length l1') (bins s) = l1') by (rewrite Eb; apply firstn_app_exact).
+    assert (Pi : 0 < inject_Z fi) by (apply (pos_of (vi, fi)); eapply nth_error_In; eauto).
+    assert (Pj : 0 < inject_Z fj) by (apply (pos_of (vj, fj)); eapply nth_error_In; eauto).
+    assert (Hij : vi < vj) by (apply (sorted_nth_lt (bins s) (length l1') (S (length l1')) (vi, fi) (vj, fj)); auto).
+    pose proof (trap_bounds vi (inject_Z fi) vj (inject_Z fj) v Hij Pi Pj ltac:(lra) Hvj) as [T1 T2].
+    unfold Bq. rewrite N1, N2, F1, (firstn_S_snoc _ _ _ N1), F1, sumq_app, sumq_cons.
+    unfold sumq at 3. cbn [sum_counts]. change (inject_Z 0%Z) with 0.
+    rewrite inner_val_trap. rewrite !Qdiv2 in *. repeat split; try lra.
+    apply nth_error_Some_lt in N1. exact N1.
+  - assert (N1 : nth_error (bins s) (length l0) = Some (vl, fl)) by (rewrite Eb; apply nth_error_mid).
+    assert (N2 : nth_error (bins s) (S (length l0)) = None).
+    { apply nth_error_None. rewrite Eb, app_length. cbn [length]. lia. }
+    assert (F1 : firstn (length l0) (bins s) = l0) by (rewrite Eb; apply firstn_app_exact).
+    assert (Pl : 0 < inject_Z fl) by (apply (pos_of (vl, fl)); eapply nth_error_In; eauto).
+    assert (T : total == sumq l0 + inject_Z fl).
+    { unfold total. rewrite Eb, sumq_app, sumq_cons. unfold sumq at 2. cbn [sum_counts]. change (inject_Z 0%Z) with 0. ring. }
+    unfold Bq. rewrite N1, N2, F1, T.
+    unfold right_val.
+    assert (Hd : 0 < mx - vl) by lra.
+    assert (R0 : 0 <= (v - vl) / (mx - vl)) by (apply Qle_shift_div_l; lra).
+    assert (R1 : (v - vl) / (mx - vl) <= 1) by (apply Qle_shift_div_r; lra).
+    set (r := (v - vl) / (mx - vl)) in *. rewrite !Qdiv2.
+    repeat split; try nra. apply nth_error_Some_lt in N1. exact N1.
+Qed.
+
+Lemma loc_mono x i a y k b : loc x i a -> loc y k b -> x <= y -> a <= b.
+Proof.
+  intros Lx Ly Hxy. pose proof HI as (Hsorted & _).
+  destruct (loc_bounds x i a Lx) as (Ax1 & Ax2 & Ix). destruct (loc_bounds y k b Ly) as (Ay1 & Ay2 & Iy).
+  destruct (Nat.lt_trichotomy i k) as [Hlt|[Heq|Hgt]].
+  - (* different segments, in order *)
+    pose proof (Bq_mono (S i) k ltac:(lia) ltac:(lia)). lra.
+  - (* same segment *)
+    destruct Lx as [l1 l2 vi fi vj fj Eb Hvi Hvj Hl|l0 vl fl Eb Hvl Hvx];
+      destruct Ly as [l1b l2b vib fib vjb fjb Ebb Hvib Hvjb Hlb|l0b vlb flb Ebb Hvlb Hvxb].
+    + rewrite Eb in Ebb. destruct (app_eq_len _ _ _ _ Ebb ltac:(assumption)) as [E1 E2]. inversion E2; subst.
+      assert (Pi : 0 < inject_Z fib) by (apply (pos_of (vib, fib)); rewrite Eb; apply in_or_app; right; now left).
+      assert (Pj : 0 < inject_Z fjb) by (apply (pos_of (vjb, fjb)); rewrite Eb; apply in_or_app; right; right; now left).
+      assert (Hij : vib < vjb) by lra.
+      rewrite !inner_val_trap.
+      pose proof (trap_mono vib (inject_Z fib) vjb (inject_Z fjb) x y Hij Pi Pj ltac:(lra) Hxy Hvjb). lra.
+    + exfalso. rewrite Eb in Ebb. apply (f_equal (@length bin)) in Ebb. rewrite !app_length in Ebb. cbn [length] in Ebb. lia.
+    + exfalso. rewrite Eb in Ebb. apply (f_equal (@length bin)) in Ebb. rewrite !app_length in Ebb. cbn [length] in Ebb. lia.
+    + rewrite Eb in Ebb. destruct (app_eq_len _ _ _ _ Ebb ltac:(assumption)) as [E1 E2]. inversion E2; subst.
+      assert (Pl : 0 < inject_Z flb) by (apply (pos_of (vlb, flb)); rewrite Eb; apply in_or_app; right; now left).
+      unfold right_val. assert (Hd : 0 < mx - vlb) by lra.
+      assert (R : (x - vlb) / (mx - vlb) <= (y - vlb) / (mx - vlb)).
+      { apply Qle_shift_div_l; [lra|]. assert (E : (x - vlb) / (mx - vlb) * (mx - vlb) == x - vlb) by (field; lra). rewrite E. lra. }
+      set (rx := (x - vlb) / (mx - vlb)) in *. set (ry := (y - vlb) / (mx - vlb)) in *. rewrite !Qdiv2. nra.
+  - (* out of order: impossible *)
+    exfalso.
+    destruct Ly as [l1b l2b vib fib vjb fjb Ebb Hvib Hvjb Hlb|l0b vlb flb Ebb Hvlb Hvxb].
+    + assert (Nk : nth_error (bins s) (S (length l1b)) = Some (vjb, fjb)) by (rewrite Ebb; apply nth_error_mid_S).
+      destruct Lx as [l1 l2 vi fi vj fj Eb Hvi Hvj Hl|l0 vl fl Eb Hvl Hvx].
+      * assert (Nx : nth_error (bins s) (length l1) = Some (vi, fi)) by (rewrite Eb; apply nth_error_mid).
+        destruct (Nat.eq_dec (S (length l1b)) (length l1)) as [E|Ne].
+        -- rewrite E in Nk. rewrite Nx in Nk. injection Nk as E1 E2. subst. lra.
+        -- pose proof (sorted_nth_lt (bins s) (S (length l1b)) (length l1) (vjb, fjb) (vi, fi) Hsorted ltac:(lia) Nk Nx) as Hs.
+           cbn [fst] in Hs. lra.
+      * assert (Nx : nth_error (bins s) (length l0) = Some (vl, fl)) by (rewrite Eb; apply nth_error_mid).
+        destruct (Nat.eq_dec (S (length l1b)) (length l0)) as [E|Ne].
+        -- rewrite E in Nk. rewrite Nx in Nk. injection Nk as E1 E2. subst vl fl.
+           assert (l2b = []).
+           { rewrite Ebb in Eb. apply (f_equal (@length bin)) in Eb. rewrite !app_length in Eb. cbn [length] in Eb.
+             destruct l2b; [reflexivity|cbn [length] in Eb; lia]. }
+           subst l2b. destruct Hlb as [Hlb|Hlb]; [congruence|]. lra.
+        -- pose proof (sorted_nth_lt (bins s) (S (length l1b)) (length l0) (vjb, fjb) (vl, fl) Hsorted ltac:(lia) Nk Nx) as Hs.
+           cbn [fst] in Hs. lra.
+    + rewrite Ebb, app_length in Ix. cbn [length] in Ix. lia.
+Qed.
+
+(* ---------------- the statements about count_at ---------------- *)
+Theorem count_at_inside v v0 f0 t :
+  bins s = (v0, f0) :: t -> v0 < v -> v < mx -> mn <= v0 ->
+  exists a, count_at QA s v = ANum a /\ 0 <= a <= total.
+Proof.
+  intros E0 Hv0 Hvx Hmn0.
+  destruct (loc_exists v v0 f0 t E0 Hv0 Hvx) as (i & a & L).
+  exists a. split.
+  - apply (loc_count_at v i a L); [lra| |exact Hvx]. intros v0' f0' t' E'. rewrite E0 in E'. inversion E'; subst. exact Hv0.
+  - destruct (loc_bounds v i a L) as (B1 & B2 & _). pose proof (Bq_nonneg i). pose proof (Bq_le_total (S i)). lra.
+Qed.
+
+Theorem count_at_monotone x y v0 f0 t a b :
+  bins s = (v0, f0) :: t -> mn <= v0 -> v0 < x -> x <= y -> y < mx ->
+  count_at QA s x = ANum a -> count_at QA s y = ANum b -> a <= b.
+Proof.
+  intros E0 Hmn0 Hx Hxy Hy Ca Cb.
+  assert (Hf : forall w, v0 < w -> forall v0' f0' t', bins s = (v0', f0') :: t' -> v0' < w).
+  { intros w Hw v0' f0' t' E'. rewrite E0 in E'. inversion E'; subst. exact Hw. }
+  destruct (loc_exists x v0 f0 t E0 Hx ltac:(lra)) as (i & a' & Lx).
+  destruct (loc_exists y v0 f0 t E0 ltac:(lra) Hy) as (k & b' & Ly).
+  rewrite (loc_count_at x i a' Lx ltac:(lra) (Hf x Hx) ltac:(lra)) in Ca.
+  rewrite (loc_count_at y k b' Ly ltac:(lra) (Hf y ltac:(lra)) Hy) in Cb.
+  inversion Ca; inversion Cb; subst. exact (loc_mono x i a y k b Lx Ly Hxy).
+Qed.
+End Mono.
+
+(* ---------------- summary statement: monotone and bounded on {min} U (first centre, max] ---------------- *)
+Theorem count_at_monotone_partial (s : @C13.st Q) mn mx v0 f0 t x y :
+  Inv s -> hmin s = Some mn -> hmax s = Some mx -> bins s = (v0, f0) :: t -> mn < mx ->
+  (x == mn \/ (v0 < x /\ x <= mx)) -> (y == mn \/ (v0 < y /\ y <= mx)) -> x <= y ->
+  exists a b, aval (count_at QA s x) = Some a /\ aval (count_at QA s y) = Some b /\
+              0 <= a /\ a <= b /\ b <= sumq (bins s).
+Proof.
+  intros HI Hmn Hmx E0 Hlt Dx Dy Hxy.
+  assert (Hne : bins s <> []) by (rewrite E0; discriminate).
+  assert (Hw : mn <= v0 /\ v0 <= mx).
+  { pose proof (within_bins s mn mx HI Hmn Hmx Hne) as W. rewrite E0 in W. inversion W; subst. cbn [fst] in *. lra. }
+  assert (Tot : 0 <= sumq (bins s)).
+  { apply sumq_nonneg. destruct HI as (_ & Hp & _). exact Hp. }
+  assert (Val : forall v, (v == mn \/ (v0 < v /\ v <= mx)) ->
+            exists a, aval (count_at QA s v) = Some a /\ 0 <= a <= sumq (bins s) /\
+                      (v == mn -> a == 0) /\ (v == mx -> a == sumq (bins s))).
+  { intros v [Hv|[Hv1 Hv2]].
+    - exists (inject_Z 0). rewrite (count_at_min s mn mx v Hne Hmn Hmx ltac:(lra) Hv). cbn [aval].
+      change (inject_Z 0%Z) with 0. split; [reflexivity|]. split; [lra|]. split; [intros; reflexivity|intros; lra].
+    - destruct (Qlt_le_dec v mx) as [Hvx|Hvx].
+      + destruct (count_at_inside s mn mx HI Hmn Hmx v v0 f0 t E0 Hv1 Hvx ltac:(lra)) as (a & Ca & Ba).
+        exists a. rewrite Ca. cbn [aval]. unfold total in Ba. split; [reflexivity|]. split; [lra|]. split; intros; lra.
+      + exists (inject_Z (count s)). rewrite (count_at_max s mn mx v Hne Hmn Hmx Hlt ltac:(lra)). cbn [aval].
+        assert (E : inject_Z (count s) == sumq (bins s)) by (unfold sumq; rewrite sum_counts_mass; reflexivity).
+        split; [reflexivity|]. rewrite E. split; [lra|]. split; [intros; lra|intros; reflexivity]. }
+  destruct (Val x Dx) as (a & Ca & Ba & Amn & Amx). destruct (Val y Dy) as (b & Cb & Bb & Bmn & Bmx).
+  exists a, b. split; [exact Ca|]. split; [exact Cb|]. split; [lra|]. split; [|lra].
+  destruct Dx as [Hx|[Hx1 Hx2]].
+  - rewrite (Amn Hx). lra.
+  - destruct Dy as [Hy|[Hy1 Hy2]]; [lra|].
+    destruct (Qlt_le_dec y mx) as [Hyx|Hyx].
+    + (* both strictly inside *)
+      destruct (count_at_inside s mn mx HI Hmn Hmx x v0 f0 t E0 Hx1 ltac:(lra) ltac:(lra)) as (a' & Ca' & _).
+      destruct (count_at_inside s mn mx HI Hmn Hmx y v0 f0 t E0 Hy1 Hyx ltac:(lra)) as (b' & Cb' & _).
+      rewrite Ca' in Ca. rewrite Cb' in Cb. cbn [aval] in Ca, Cb. inversion Ca; inversion Cb; subst.
+      apply (count_at_monotone s mn mx HI Hmn Hmx x y v0 f0 t a b E0 ltac:(lra) Hx1 Hxy Hyx Ca' Cb').
+    + rewrite (Bmx ltac:(lra)). lra.
+Qed.
+
+(* ======================================================================================= *)
+(* quantile at the two ends                                                                 *)
+Lemma mass_ge_first (l : list bin) v0 f0 t : l = (v0, f0) :: t -> pos_counts l -> (f0 <= mass l)%Z /\ (1 <= f0)%Z.
+Proof.
+  intros -> Hp. inversion Hp as [|? ? Hf Ht]; subst. cbn [snd] in Hf. split; [|exact Hf].
+  unfold mass. cbn [fold_right snd].
+  assert (0 <= fold_right (fun (b : bin) a => snd b + a) 0 t)%Z.
+  { clear - Ht. induction t as [|x t IH]; cbn; [lia|]. inversion Ht; subst. specialize (IH H2). lia. }
+  lia.
+Qed.
+
+Lemma mass_ge_last (l l0 : list bin) vl fl : l = l0 ++ [(vl, fl)] -> pos_counts l -> (fl <= mass l)%Z /\ (1 <= fl)%Z.
+Proof.
+  intros -> Hp. apply pos_app in Hp as [P0 Pl]. inversion Pl as [|? ? Hf _]; subst. cbn [snd] in Hf. split; [|exact Hf].
+  rewrite mass_app. unfold mass at 2. cbn [fold_right snd].
+  assert (0 <= mass l0)%Z.
+  { clear - P0. induction l0 as [|x t IH]; unfold mass; cbn; [lia|]. inversion P0; subst. specialize (IH H2). unfold mass in IH. lia. }
+  lia.
+Qed.
+
+Theorem quantile_at_zero (s : @C13.st Q) mn mx :
+  Inv s -> bins s <> [] -> hmin s = Some mn -> hmax s = Some mx -> mn <= mx ->
+  exists x, quantile QA s 0 = ANum x /\ x == mn.
+Proof.
+  intros HI Hne Hmn Hmx Hle. pose proof HI as (_ & Hp & _).
+  destruct (bins s) as [|[v0 f0] t] eqn:E0; [congruence|].
+  destruct (mass_ge_first _ v0 f0 t eq_refl Hp) as [Hm Hf0].
+  destruct (nth_error_lt_Some ((v0, f0) :: t) (length ((v0, f0) :: t) - 1)) as [[vl fl] Hn]; [cbn [length]; lia|].
+  unfold quantile. rewrite E0, Hmn, Hmx, Hn.
+  cbn [leb ofZ mul sub add div trunc QA].
+  assert (L0 : Qle_bool (inject_Z 0) 0 = true) by reflexivity.
+  assert (L1 : Qle_bool 0 (inject_Z 1) = true) by reflexivity.
+  rewrite L0, L1. cbn [andb negb].
+  assert (Eq : Qtrunc (inject_Z (count (mkst ((v0, f0) :: t) (hmin s) (hmax s) (diffs s) (min_diff s) (cap s))) * 0) = 0%Z).
+  { unfold Qtrunc, Qmult, inject_Z. cbn [Qnum Qden]. rewrite Z.mul_0_r. reflexivity. }
+  assert (Ec : count s = count (mkst ((v0, f0) :: t) (hmin s) (hmax s) (diffs s) (min_diff s) (cap s))).
+  { unfold count. cbn [bins]. now rewrite E0. }
+  rewrite Ec, Eq.
+  assert (P0 : 0 < inject_Z f0) by now apply pos_inject.
+  unfold two. cbn [ofZ QA].
+  destruct (Qleb_spec (inject_Z 0) (inject_Z f0 / inject_Z 2)) as [H|H].
+  - eexists. split; [reflexivity|].
+    set (r := mn + inject_Z 0 / (inject_Z f0 / inject_Z 2) * (v0 - mn)).
+    assert (Er : r == mn).
+    { unfold r. change (inject_Z 0) with 0. change (inject_Z 2) with 2. field. lra. }
+    unfold pmin, pmax. cbn [ltb QA].
+    destruct (Qltb_spec r mn); [lra|]. destruct (Qltb_spec mx r); [lra|exact Er].
+  - exfalso. apply H. change (inject_Z 0) with 0. change (inject_Z 2) with 2. apply Qle_shift_div_l; lra.
+Qed.
+
+Theorem quantile_at_one (s : @C13.st Q) mn mx :
+  Inv s -> bins s <> [] -> hmin s = Some mn -> hmax s = Some mx -> mn <= mx ->
+  quantile QA s 1 = ANum mx.
+Proof.
+  intros HI Hne Hmn Hmx Hle. pose proof HI as (_ & Hp & _).
+  destruct (bins s) as [|[v0 f0] t] eqn:E0; [congruence|].
+  destruct (mass_ge_first _ v0 f0 t eq_refl Hp) as [Hm Hf0].
+  destruct (nth_error_lt_Some ((v0, f0) :: t) (length ((v0, f0) :: t) - 1)) as [[vl fl] Hn]; [cbn [length]; lia|].
+  destruct (last_split _ _ Hn) as (l0 & El).
+  destruct (mass_ge_last _ l0 vl fl El Hp) as [Hml Hfl].
+  unfold quantile. rewrite E0, Hmn, Hmx, Hn.
+  cbn [leb ofZ mul sub add div trunc QA].
+  assert (L0 : Qle_bool (inject_Z 0) 1 = true) by reflexivity.
+  assert (L1 : Qle_bool 1 (inject_Z 1) = true) by reflexivity.
+  rewrite L0, L1. cbn [andb negb].
+  set (tot := count (mkst ((v0, f0) :: t) (hmin s) (hmax s) (diffs s) (min_diff s) (cap s))).
+  assert (Ec : count s = tot) by (unfold tot, count; cbn [bins]; now rewrite E0).
+  assert (Em : tot = mass ((v0, f0) :: t)) by reflexivity.
+  rewrite Ec.
+  assert (Eq : Qtrunc (inject_Z tot * 1) = tot).
+  { unfold Qtrunc, Qmult, inject_Z. cbn [Qnum Qden]. rewrite Z.mul_1_r. apply Z.quot_1_r. }
+  rewrite Eq.
+  assert (P0 : 0 < inject_Z f0) by now apply pos_inject.
+  assert (Pl : 0 < inject_Z fl) by now apply pos_inject.
+  assert (T0 : inject_Z f0 <= inject_Z tot) by (rewrite <- Zle_Qle; lia).
+  assert (Tl : inject_Z fl <= inject_Z tot) by (rewrite <- Zle_Qle; lia).
+  unfold two. cbn [ofZ QA]. change (inject_Z 2) with 2. change (inject_Z 1) with 1.
+  destruct (Qleb_spec (inject_Z tot) (inject_Z f0 / 2)) as [H|H].
+  - exfalso. assert (inject_Z f0 / 2 < inject_Z f0) by (apply Qlt_shift_div_r; lra). lra.
+  - destruct (Qleb_spec (inject_Z tot - inject_Z fl / 2) (inject_Z tot)) as [H2|H2].
+    + destruct (Qleb_spec 1 ((inject_Z tot - (inject_Z tot - inject_Z fl / 2)) / (inject_Z fl / 2))) as [H3|H3].
+      * f_equal. unfold pmin, pmax. cbn [ltb QA].
+        destruct (Qltb_spec mx mn); [lra|]. destruct (Qltb_spec mx mx); [lra|reflexivity].
+      * exfalso. apply H3.
+        assert (E : (inject_Z tot - (inject_Z tot - inject_Z fl / 2)) / (inject_Z fl / 2) == 1) by (field; lra).
+        rewrite E. lra.
+    + exfalso. apply H2. assert (0 <= inject_Z fl / 2) by (apply Qle_shift_div_l; lra). lra.
+Qed.
+
+(* ======================================================================================= *)
+(* profile estimators: below = count_at, above = (count - missing) - count_at              *)
+Definition est_above (nonnull : Q) (s : @C13.st Q) (x : Q) : option Q :=
+  match aval (count_at QA s x) with Some b => Some (nonnull - b) | None => None end.
+
+Lemma below_above_sum (nonnull : Q) (s : @C13.st Q) x b :
+  aval (count_at QA s x) = Some b -> exists a, est_above nonnull s x = Some a /\ b + a == nonnull.
+Proof. intros H. unfold est_above. rewrite H. eexists. split; [reflexivity|ring]. Qed.
